@@ -232,8 +232,16 @@ class GriffeLoader:
             self.expand_wildcards(wildcards_module, external=external)
 
         load_failures: set[str] = set()
-        while unresolved and unresolved != prev_unresolved and iteration < max_iterations:  # type: ignore[operator]
+        loaded = -1  # Number of packages in the collection before the previous iteration.
+        # An iteration that loaded a package made progress even if it left the same aliases unresolved:
+        # the ones it visited before loading the package (and the package's own aliases) must be tried again.
+        while (
+            unresolved
+            and (unresolved != prev_unresolved or len(collection) != loaded)
+            and iteration < max_iterations  # type: ignore[operator]
+        ):
             prev_unresolved = unresolved - {"0"}
+            loaded = len(collection)
             unresolved = set()
             resolved: set[str] = set()
             iteration += 1
